@@ -16,6 +16,8 @@ CLAUSE = CLAUSE + (" (RF-CORR) the per-network count of referenced pages moves w
                    "page's ref_count from 1 to 0 decrements n_referenced_pages (zombie pages included), every path that sets it to 1 or "
                    "raises it from 0 increments it; vbi_chsw_reset resets the per-page statistics (vbi_teletext_channel_switched) only "
                    "after vbi->cn has been replaced, never on the network whose pages are still stored.")
+CLAUSE = CLAUSE + (" (RF-TAB) a stored page is copied with the size cache_page_size() gives it; every designation-guarded read of a "
+                   "variable page part (data.ext_lop, data.enh_lop) is under designation bits for which that size includes the part.")
 NOT_DECIDED = ("map semantics (lookup returns the most recent version), memory-limit arithmetic, exactness of the per-network "
                "statistics, distinctness of death_row entries across the two eviction passes.")
 
@@ -37,6 +39,10 @@ def run(ctx, run):
     _chsw(ctx, run, P.need("vbi_chsw_reset", "src/vbi.c"))
     _ref_counters(ctx, run)
     _priority_passes(ctx, run)
+    # a stored page is readable in full by whoever gets a reference: the size it was stored with
+    # covers every part a designation-guarded reader touches (rule shared with C01)
+    from . import C01
+    C01._page_sizes(ctx, run)
 
 
 def _pairing(ctx, run, what, acq, rel, hint, movers, floor):
